@@ -7,12 +7,13 @@ import GffModel.ProtoC17
 import GffModel.ProtoMerge
 import GffModel.ProtoIter
 import GffModel.ProtoSql
+import GffModel.ProtoWorld
 
 namespace GffModel
 namespace ProtoAll
 
 def handlers : List (List String → Option String) :=
-  [Proto.stepPure, ProtoC17.handler, ProtoMerge.handler, ProtoIter.handler, ProtoSql.handler]
+  [Proto.stepPure, ProtoC17.handler, ProtoMerge.handler, ProtoIter.handler, ProtoSql.handler, ProtoWorld.handler]
 
 def step (ws : List String) : Option String :=
   handlers.findSome? (fun h => h ws)
